@@ -27,9 +27,9 @@ struct C04 : vr::Driver {
     tier_ = tier;
     bool th = tier == "thorough";
     plugins = th ? std::vector<int>{0, 1, 2, 3, 4} : std::vector<int>{0, 1, 2};
-    // dims: shape(3) pop(3) plugin pattern(4) recursive(2) kernelkill(2) pref(3) delay(3: ruleset 2 / plugin 3 / plugin 0) always_continue(2)
+    // dims: shape(3) pop(4: + every process survives SIGKILL, so the wet world stays what the dry world is) plugin pattern(4) recursive(2) kernelkill(2) pref(3) delay(3: ruleset 2 / plugin 3 / plugin 0) always_continue(2)
     //       prekill hook(3: none / finishes at once / pending for one tick, i.e. the kill is deferred and resumed)
-    mx.dims = {3, 3, plugins.size(), 4, 2, 2, 3, 3, 2, 3};
+    mx.dims = {3, 4, plugins.size(), 4, 2, 2, 3, 3, 2, 3};
     nKill = mx.total();
   }
   size_t count() override { return nKill + 8; }  // + systemd_restart scenarios
@@ -60,7 +60,8 @@ struct C04 : vr::Driver {
       bool leaf = true;
       for (auto& o : shape)
         if (o.size() > c.rel.size() && o.compare(0, c.rel.size() + 1, c.rel + "/") == 0) leaf = false;
-      c.nprocs = d[1] == 0 ? (leaf ? 1 : 0) : d[1] == 1 ? (leaf ? (i % 2 ? 0 : 22) : 0) : (leaf ? 2 : 1);
+      c.nprocs = d[1] == 0 ? (leaf ? 1 : 0) : d[1] == 1 ? (leaf ? (i % 2 ? 0 : 22) : 0) : d[1] == 2 ? (leaf ? 2 : 1) : (leaf ? 2 : 0);
+      if (d[1] == 3) c.lingerAll = 1000;
       c.mem = (long long)(i + 1) * (100LL << 20);
       c.swap = (long long)(shape.size() - i) * (10LL << 20);
       c.p10 = 10 + 3 * (double)i;
@@ -140,6 +141,19 @@ struct C04 : vr::Driver {
         return fail("first-victim", std::string("wet run first attacks ") + (tw ? ow.attempts[0].victim + " at tick " + std::to_string(tw) : "(nothing)") +
                                         ", dry run names " + (td ? od.attempts[0].victim + " at tick " + std::to_string(td) : "(nothing)"));
       if (td && !od.attempts[0].dry) return fail("dry-record", "record not marked (dry)");
+    }
+    // 2b. when no process ever dies (every kill is delivered but the process survives) the wet world stays what the dry world is,
+    // so the first victim must agree on EVERY tick, not only on the first kill
+    if (sd.plugin != "systemd_restart" && idx < nKill && mx.decode(idx)[1] == 3) {
+      for (int t = 1; t <= sd.ticks; t++) {
+        std::string vw, vd;
+        for (auto& a : ow.attempts)
+          if (a.tick == t && vw.empty()) vw = a.victim;
+        for (auto& a : od.attempts)
+          if (a.tick == t && vd.empty()) vd = a.victim;
+        if (vw != vd)
+          return fail("first-victim", "tick " + std::to_string(t) + " (no process ever dies in this world): the wet run first attacks " + (vw.empty() ? "(nothing)" : vw) + ", the dry run names " + (vd.empty() ? "(nothing)" : vd));
+      }
     }
     // 3. control flow: return value and chain timing equal to a wet run whose first attempt succeeded
     bool wetFirstSucceeded = sd.plugin == "systemd_restart" ||
